@@ -1204,7 +1204,7 @@ def enum_limits(tier):
 
 def plan(tier):
   from ..gen import pktspec
-  per = 300 if tier == "quick" else 8000
+  per = 300 if tier == "quick" else 20000
   shapes = pktspec.shapes(1500)
   drivers = [Enum("catalog", lambda: enum_catalog(tier), shards=4),
              Enum("directed-checksum-corners", lambda: enum_directed(tier), shards=2),
